@@ -33,6 +33,25 @@ def gen_case(r, idx):
         if r.random() < 0.5:
             segs.append(("zero", r.choice([512, 3000])))
         tree[b"sparse%d" % k] = Node("file", 0o644, data=segs)
+    # sparse file with a map that needs several 512 byte map blocks (GNU 1.0) / extension headers (old GNU)
+    if r.random() < 0.5:
+        segs = []
+        for k in range(r.choice([30, 60, 130])):
+            segs.append(("rand", r.getrandbits(30), r.choice([1, 100, 512])))
+            segs.append(("zero", 512 * r.choice([1, 2, 3])))
+        tree[b"sparse-many-regions"] = Node("file", 0o644, data=segs)
+        tree[b"sparse-many-regions.d"] = Node("dir", 0o700)
+        tree[b"sparse-many-regions.l"] = Node("slink", 0o777, target=b"sparse-many-regions")
+        tree[b"sparse-many-regions.z"] = Node("file", 0o600, data=[("bytes", b"after the sparse file")])
+    # a sub directory with siblings whose names are string prefixes of its path (for sqfs2tar --subdir)
+    tree[b"sel"] = Node("dir", 0o755)
+    tree[b"sel/ect"] = Node("dir", 0o750)
+    tree[b"sel/ect/inner"] = Node("file", 0o644, data=[("bytes", b"inner")])
+    tree[b"sel/ect/sub"] = Node("dir", 0o755)
+    tree[b"sel/ect/sub/deep"] = Node("slink", 0o777, target=b"../inner")
+    for nm in (b"s", b"se", b"sel/e", b"sel/ec", b"sel/ect2", b"other"):
+        tree[nm] = Node("file", 0o644, data=[("bytes", nm)]) if nm != b"other" else Node("dir", 0o755)
+    tree[b"other/x"] = Node("fifo", 0o600)
     # hard link to a long name
     files = [p for p, n in tree.items() if n.type == "file" and n.link_to is None and p]
     if files:
@@ -250,7 +269,7 @@ def run_case(arg):
             else:
                 oc.inc("fixpoints_reached")
             # ---- option variants on the sqfs2tar side
-            for sopt in (["-r", "."], ["-X"], ["-L"]):
+            for sopt in (["-r", "."], ["-X"], ["-L"], ["-d", "sel/ect", "-k"], ["-d", "sel/ect", "-d", "other"], ["-d", "sel/ect"]):
                 res = core.run_tool([B["sqfs2tar"]] + sopt + [i1], timeout=300)
                 oc.inc("sqfs2tar_option_runs")
                 if res.san or res.rc != 0:
@@ -261,7 +280,22 @@ def run_case(arg):
                 except Exception as e:
                     oc.violate("sqfs2tar:python-tarfile-rejects:%s" % sopt[0], repr(e)[:200])
                     continue
-                if sopt[0] == "-r":
+                if sopt[0] == "-d" and b"sel/ect" in m1:
+                    under = lambda q, d: q == d or q.startswith(d + b"/")
+                    if sopt == ["-d", "sel/ect"]:
+                        want = set(q[len(b"sel/ect/"):] for q in m1 if q.startswith(b"sel/ect/"))
+                    elif "-k" in sopt:
+                        want = set(q for q in m1 if under(q, b"sel/ect")) | {b"sel"}
+                    else:
+                        want = set(q for q in m1 if under(q, b"sel/ect") or under(q, b"other")) | {b"sel"}
+                    if set(tmo) != want:
+                        oc.violate("sqfs2tar:subdir:%s:paths" % ("keep-as-dir" if "-k" in sopt else "multi" if len(sopt) == 4 else "single"),
+                                   "unexpected %r missing %r" % (sorted(set(tmo) - want)[:4], sorted(want - set(tmo))[:4]))
+                    else:
+                        oc.inc("subdir_variants_ok")
+                elif sopt[0] == "-d":
+                    pass
+                elif sopt[0] == "-r":
                     names = set(p[2:] if p.startswith(b"./") else (b"" if p == b"." else p) for p in tmo)
                     if names != set(m1):
                         oc.violate("sqfs2tar:root-becomes:paths", "%r" % sorted(names ^ set(m1))[:4])
